@@ -434,7 +434,7 @@ func main() {
 	}
 	// directed boundary classes and random histories biased towards them (boundary.go)
 	boundary(cfg.Thorough(), cfg.Rand, runCase, fill)
-	cfg.Write("C06", "operation sequences over the vocabulary of VtSpec.v (printable narrow and wide text, CR, LF, IND, RI, NEL, CUU..CUP/HVP, ED, EL, ECH, ICH, DCH, IL, DL, SU, SD, DECSTBM, DECSC, DECRC, alternate screen, SGR, OSC 8 hyperlinks with targets and parameters over an alphabet containing \";\", \":\", \"=\") with parameters omitted, 0, 1, 2, size-1, size, size+1 and huge, on screens from 2x2: (a) every operation shape once after a preamble that fills the screen with distinct glyphs (plain and styled) and places the cursor in a corner, the middle or an edge, followed by one more glyph; thorough: also pairs of shapes inside a scrolling region; (b) random histories of 6-45 operations; (c) boundaries: on small screens every scrolling region shape (and none), the cursor on every line (on / one above / one below either margin, first, last line), then CUU CUD CNL CPL VPR VPA with every parameter omitted, 0..height+1, 65535, 65536, 2^63-1, IL DL SU SD with parameters around the distance to the bottom margin and the region height and huge, IND RI NEL LF, and autowrap by a narrow glyph, a wide glyph that does not fit and after a wide glyph ending in the last column; every column with CUF CUB HPR CHA HPA ECH ICH DCH ED EL and glyphs; the deferred-wrap state (after a narrow or a wide glyph, inside / on the bottom margin of / below / above a region) followed by every operation specified in it (CUP/HVP onto the same cell, beyond the width, elsewhere; CHA HPA VPA CR SGR hyperlink glyphs) and two glyphs; DECSC/DECRC/1049 combinations with differing saved position and pen on both screens; (d) random histories that aim at those positions; written as bytes, parsed by the real ansi.Parser; the complete emulator state is observed after every operation under test (size, cursor, wrap flag and region after every other one); non-trivial = at least three different operations in the history",
+	cfg.Write("C06", "operation sequences over the vocabulary of VtSpec.v (printable narrow and wide text, CR, LF, IND, RI, NEL, CUU..CUP/HVP, ED, EL, ECH, ICH, DCH, IL, DL, SU, SD, DECSTBM, DECSC, DECRC, alternate screen, SGR, OSC 8 hyperlinks with targets and parameters over an alphabet containing \";\", \":\", \"=\") with parameters omitted, 0, 1, 2, size-1, size, size+1 and huge, on screens from 2x2: (a) every operation shape once after a preamble that fills the screen with distinct glyphs (plain and styled) and places the cursor in a corner, the middle or an edge, followed by one more glyph; thorough: also pairs of shapes inside a scrolling region; (b) random histories of 6-45 operations; (c) boundaries: on small screens every scrolling region shape (and none), the cursor on every line (on / one above / one below either margin, first, last line), then CUU CUD CNL CPL VPR VPA with every parameter omitted, 0..height+1, 65535, 65536, 2^63-1, IL DL SU SD with parameters around the distance to the bottom margin and the region height and huge, IND RI NEL LF, and autowrap by a narrow glyph, a wide glyph that does not fit and after a wide glyph ending in the last column; every column with CUF CUB HPR CHA HPA ECH ICH DCH ED EL and glyphs; the deferred-wrap state (after a narrow or a wide glyph, inside / on the bottom margin of / below / above a region) followed by every operation specified in it (CUP/HVP onto the same cell, beyond the width, elsewhere; CHA HPA VPA CR SGR hyperlink glyphs) and two glyphs; DECSC/DECRC/1049 combinations with differing saved position and pen on both screens; saved cursors against scrolling regions: every region shape (and none) x the saved line on every line of the screen (above, on either margin, inside, below the region) x DECSC..DECRC on the normal screen, ?1049h..?1049l, DECSC..DECRC on the alternate screen x the region set before the save or between the save and the restore, then a glyph, an index and a second restore; (d) random histories that aim at those positions, with save / change region / work elsewhere / restore episodes started on lines near and below the margins; written as bytes, parsed by the real ansi.Parser; the complete emulator state is observed after every operation under test (size, cursor, wrap flag and region after every other one); non-trivial = at least three different operations in the history",
 		[]*hx.Stream{s}, map[string]interface{}{"reparsed_after_escape_timer": reparsed}, nil)
 }
 
